@@ -16,8 +16,15 @@ D=$(mktemp -d /tmp/confirm.XXXXXX)
 rsync -a --exclude .git --exclude _out /repo/ $D/
 cd $D && git init -q
 applies=no; builds=no; suite=unknown; demo_with=unknown; demo_without=unknown
-if git apply --whitespace=nowarn $DST/patch.diff 2>/dev/null; then applies=yes; fi
-if [ $applies = yes ] && go build ./... 2>/dev/null; then builds=yes; fi
+git add -A >/dev/null 2>&1; git -c user.email=a@b -c user.name=x commit -qm base >/dev/null 2>&1
+if git apply --whitespace=nowarn $DST/patch.diff 2>/dev/null; then applies=yes
+elif patch -p1 --fuzz=3 --no-backup-if-mismatch < $DST/patch.diff >/dev/null 2>&1; then
+  # the reference tree moved on since the change was written: re-base the patch
+  find . -name '*.orig' -delete; find . -name '*.rej' -delete
+  git diff > $DST/patch.diff; applies=rebased
+  git checkout -q -- . ; git apply --whitespace=nowarn $DST/patch.diff
+else git checkout -q -- . 2>/dev/null; fi
+if [ $applies != no ] && go build ./... 2>/dev/null; then builds=yes; fi
 if [ $builds = yes ]; then
   if /verif/tools/suite.sh $D > $DST/suite.log 2>&1; then suite=pass; else suite=FAIL; fi
   cp $SRC/demo_test.go leader/zz_demo_test.go
